@@ -93,7 +93,19 @@ pub fn run_c08(ctx: &mut Ctx) -> R {
     let mut cfg = draw_cfg(&ch, true);
     cfg.block = 16 + ch.draw("c08.block", 64) as u16;
     cfg.offset = 0;
-    let frames = draw_len(&ch, &cfg, 3).min(600 / cfg.channels as usize).max(1);
+    let mut frames = draw_len(&ch, &cfg, 3).min(600 / cfg.channels as usize).max(1);
+    // one run in twelve: a block that carries more than 64 KiB of PCM (whatever is batched, buffered or
+    // hashed per block in fixed-size pieces is then exercised), compared across front-ends only
+    let big = ch.draw("c08.bigblock", 12) == 11;
+    if big {
+        let (b, c, bits) = *ch.pick("c08.bigblock.shape", &[(32768u16, 2u8, 16u32), (16385, 2, 16), (4096, 6, 24), (4096, 8, 32), (11000, 2, 24)]);
+        cfg.block = b;
+        cfg.channels = c;
+        cfg.bps = bits;
+        cfg.lpc = None;
+        frames = b as usize + 1 + ch.draw("c08.bigblock.extra", 40) as usize;
+        probe("c08_block_larger_than_64k_of_pcm");
+    }
     let pcm = draw_pcm(&ch, cfg.channels, cfg.bps, frames);
     ctx.describe(|| format!("{} frames={} pcm={}", cfg.describe(), pcm.frames, short_vec(&pcm.inter, 16)));
     let gold = match golden(&cfg, &pcm) {
@@ -109,7 +121,7 @@ pub fn run_c08(ctx: &mut Ctx) -> R {
         _ => return viol("file-differs", "two identical one-call encodes produced different files"),
     }
     ctx.api(30, 0);
-    let family = ch.draw("c08.family", 4);
+    let family = if big { 1 } else { ch.draw("c08.family", 4) };
     match family {
         0 => {
             // every two-way split point through a drawn front-end
